@@ -4,7 +4,8 @@
 // per-file view / resolve_fixture_for_file contracts of unit available: prelude/avail_spec.rs, avail_l2.rs).
 //   L1: prelude/handlers2_spec.rs (op_handle_outgoing, param_ranges, inlay_post);  L2: prelude/handlers2_l2.rs.
 // Callees: resolve_fixture_for_file = //@stub available; get_available_fixtures = ASSUMED composition of the contracts
-// proved in units memo and available; parameter_has_annotation, str::find, str::lines, format! = uninterpreted.
+// proved in units memo and available; parameter_has_annotation, str::lines (inlay hints), format! = uninterpreted.
+// find_parameter_ranges (since the repair of F-15c) reads the recorded usages: fully under contract, no string code.
 // the handler files say `use tower_lsp_server::ls_types::*;` -- tower-lsp-server re-exports the crate ls_types
 use ls_types::*;
 // the handler code spells the scope type `crate::fixtures::types::FixtureScope`
@@ -21,6 +22,7 @@ use super::*;
 //@include prelude/atomic.rs
 //@include prelude/dbview.rs
 //@include prelude/hof.rs
+//@include prelude/strings.rs
 //@include prelude/resolve_spec.rs
 //@include prelude/resolve_l2.rs
 //@include prelude/sort.rs
@@ -88,34 +90,48 @@ pub fn parameter_has_annotation(lines: &[&str], line: usize, end_char: usize) ->
 
 impl Backend {
 /*@ extract src/providers/call_hierarchy.rs find_parameter_ranges
-@tags C15 C11
+@tags C15 C11 C12
 @ret r
-@wrapexpr 1 `content.lines().collect()` => `Self::vp_lines_vec(&content)` with fn vp_lines_vec<'a, 'b>(content: &'a Ref<'b, PathBuf, String>) -> (r: Vec<&'a str>) ensures strs_ref_v(r@) == text_lines(Some((*content.r)@))
-@wrapexpr 1 `line_content.find(param_name)` => `Self::vp_find_in_line(line_content, param_name)` with fn vp_find_in_line(line_content: &&str, param_name: &str) -> (r: Option<usize>) ensures r == str_find((*line_content)@, param_name@), r is Some ==> r->0 + param_name.spec_bytes().len() <= (*line_content).spec_bytes().len() <= usize::MAX
 @sig
     ensures line_fits(line) ==> (match r {
-        Some(v) => param_ranges(self.fixture_db.file_cache.m(), pv(file_path), line, param_name@) is Some
-            && v@ =~= param_ranges(self.fixture_db.file_cache.m(), pv(file_path), line, param_name@)->0,
-        None => param_ranges(self.fixture_db.file_cache.m(), pv(file_path), line, param_name@) is None }),
-@after lines 1
-    proof { assert(strs_ref_v(lines@).len() == lines@.len()); }
-@after line_content 1
-    proof { assert(strs_ref_v(lines@)[line.saturating_sub(1) as int] == (*line_content)@); }
-@return 1
-    if line_fits(line) {
-        let cache = self.fixture_db.file_cache.m();
-        let f = pv(file_path);
-        assert(cache.contains_key(f));
-        let ls = text_lines(Some(cache[f]@));
-        assert(strs_ref_v(lines@) == ls);
-        let idx = if line == 0 { 0int } else { line - 1 };
-        assert(idx < ls.len());
-        assert(ls[idx] == (*line_content)@);
-        assert(str_find(ls[idx], param_name@) == Some(start));
-        axiom_utf8_len(param_name);
-        assert(param_name.spec_bytes().len() == utf8_len(param_name@));
-        assert(range == mk_range(crate::lsp_line(line), start as u32, crate::lsp_line(line), (start + utf8_len(param_name@)) as u32));
+        Some(v) => param_ranges(self.fixture_db.uses(), pv(file_path), line, param_name@) is Some
+            && v@ =~= param_ranges(self.fixture_db.uses(), pv(file_path), line, param_name@)->0,
+        None => param_ranges(self.fixture_db.uses(), pv(file_path), line, param_name@) is None }),
+@before for 1
+    let ghost ux = usages.r@;
+    let ghost us = uvs(ux);
+    let ghost pu = param_use(line, param_name@);
+    proof {
+        assert(self.fixture_db.uses().contains_key(pv(file_path)) && us == self.fixture_db.uses()[pv(file_path)]);
+        assert(us.take(0).filter(pu).map_values(use_range_fn()) =~= Seq::<Range>::empty()) by { reveal(Seq::filter); }
     }
+@loopvar 1 it
+@loop 1
+    invariant ux == usages.r@, us == uvs(ux), it.seq() == ux.as_ref(), pu == param_use(line, param_name@),
+        line_fits(line) ==> lsp_line == crate::lsp_line(line),
+        line_fits(line) ==> ranges@ =~= us.take(it.index@ as int).filter(pu).map_values(use_range_fn()),
+@loopstart 1
+    let ghost i0 = it.index@ as int;
+    let ghost r0 = ranges@;
+    proof { assert(ux[i0] == *usage); assert(us[i0] == uv(usage)); }
+@loopend 1
+    proof {
+        let t1 = us.take(i0 + 1);
+        assert(t1.drop_last() =~= us.take(i0));
+        assert(t1.last() == us[i0]);
+        reveal_with_fuel(Seq::filter, 2);
+        let f1 = us.take(i0).filter(pu);
+        if pu(us[i0]) {
+            assert(t1.filter(pu) =~= f1.push(us[i0]));
+            assert(f1.push(us[i0]).map_values(use_range_fn()) =~= f1.map_values(use_range_fn()).push(use_range(us[i0])));
+            if line_fits(line) { assert(ranges@ =~= r0.push(use_range(us[i0]))); }
+        } else {
+            assert(t1.filter(pu) =~= f1);
+            assert(ranges@ == r0);
+        }
+    }
+@return tail
+    assert(us.take(us.len() as int) =~= us);
 @*/
 
 /*@ extract src/providers/call_hierarchy.rs handle_outgoing_calls
